@@ -1548,9 +1548,26 @@ def _facts_by_pred(self, bb, depth=0):
     return out
 
 
+def _skip_facts_at(self, pos):
+    """the dominating branch facts at pos whose branch had a REAL alternative — a sibling edge from which a normal return is still
+    reachable. A fact established by an assertion (the other edge only panics) is a precondition of the whole function, not a condition
+    under which the code at pos is skipped."""
+    out = []
+    ex = self.exits()
+    for f in self.body_facts():
+        u, v = f["u"], f["v"]
+        if u not in self.live_blocks() or not self.edge_dominates(u, v, pos[0]):
+            continue
+        sib = [w for w in self.succ(u) if w != v]
+        if any(any(x in self.reachable(w) for x in ex) for w in sib):
+            out.append(f["rel"])
+    return out
+
+
 Body.body_facts = _body_facts
 Body.facts_at = _facts_at
 Body.facts_by_pred = _facts_by_pred
+Body.skip_facts_at = _skip_facts_at
 
 
 def implies_ge(facts, a, b):
